@@ -742,10 +742,45 @@ impl World {
 		check_view("fresh", &txn, &exp, keys)
 	}
 
+	/// With a value log: the oldest value-log file each live table records as referenced must exist
+	/// (clean-up only removes files below the minimum over all live tables).
+	pub fn check_table_pointers(&self) -> Option<Mismatch> {
+		let shape = self.shape()?;
+		let mut on_disk = std::collections::BTreeSet::new();
+		if let Ok(rd) = std::fs::read_dir(self.dir.join("vlog")) {
+			for e in rd.flatten() {
+				let n = e.file_name().to_string_lossy().to_string();
+				if let Some(id) = n.strip_suffix(".vlog").and_then(|x| x.parse::<u64>().ok()) {
+					on_disk.insert(id);
+				}
+			}
+		}
+		for (li, level) in shape.levels.iter().enumerate() {
+			for t in level {
+				if t.oldest_vlog_file_id > 0 && !on_disk.contains(&t.oldest_vlog_file_id) {
+					return Some(Mismatch {
+						who: "tables".into(),
+						query: "oldest value-log file referenced by each live table".into(),
+						expected: "present".into(),
+						got: format!("table {} (level {li}) points into value-log file {} which is gone (on disk {on_disk:?})", t.id, t.oldest_vlog_file_id),
+						kind: "dangling-table-pointer".into(),
+					});
+				}
+			}
+		}
+		None
+	}
+
 	/// With a value log and a version index: every value-log file an index entry points into
 	/// must exist (no file is removed while an index entry can still lead a reader to it).
 	pub fn check_index_pointers(&self) -> Option<Mismatch> {
-		if self.opt.vlog.is_none() || !matches!(self.opt.versioning, Some((_, true))) {
+		if self.opt.vlog.is_none() {
+			return None;
+		}
+		if let Some(m) = self.check_table_pointers() {
+			return Some(m);
+		}
+		if !matches!(self.opt.versioning, Some((_, true))) {
 			return None;
 		}
 		let tree = self.tree.as_ref()?;
